@@ -1,6 +1,17 @@
 import GrinVerif.Lemmas.ChainBasic
 import GrinVerif.Lemmas.ChainApply
-/-! # C02 — every input spends an existing unspent output exactly once, on every fork -/
+import GrinVerif.Lemmas.ChainImplRefine
+/-! # C02 — every input spends an existing unspent output exactly once, on every fork
+
+Two layers. `Model/Chain.lean` *defines* the unspent set of a block by replay of its own path from
+genesis (first two theorems). `Model/ChainImpl.lean` is the implementation-shaped incremental
+txhashset (output leaves, leaf set, `output_pos` index, per-block spent index; `apply_block`,
+`rewind_single_block`, `rewind_and_apply_fork`); the remaining theorems show that moving this one
+txhashset along the block tree — apply, rewind, fork switch, re-created commitments included —
+always yields the replay's unspent set. Definitions used in statements: `TxHS.RInv`
+(`Lemmas/ChainImplBasic.lean`), `BlockApplied` (`Lemmas/ChainImplBlock.lean`), `TxHS.Equiv`
+(`Lemmas/ChainImplRewind.lean`), `withPrevSizes` (`Lemmas/ChainImplFork.lean`), `Blk.Sane`
+(`Lemmas/ChainValue.lean`). -/
 namespace GV.Props.C02
 open GV GV.Chain
 
@@ -36,21 +47,115 @@ theorem apply_spends_exactly (p : Params) (s s' : UState) (b : Blk) (h : applyBl
     s'.has o = ((s.has o && !b.ins.contains o) || b.outs.any (·.1 == o)) := by
   have he := (applyBlock_ok p s s' b h).2.2.2.2
   subst he
-  simp only [UState.has, effects, List.any_append, List.any_filter, List.any_map]
-  congr 1
-  · induction s.utxo with
-    | nil => simp
-    | cons u us ih =>
-      simp only [List.any_cons, ih]
-      by_cases hu : u.1 = o
-      · subst hu; simp
-      · have : (u.1 == o) = false := by simpa using hu
-        simp [this]
+  exact effects_has s b o
 
 -- non-vacuity: spending o1 and creating o2 in a state holding o1
 example : applyBlock {} { utxo := [(1, 0, false)] }
     { id := 1, parent := some 0, h := 1, work := 2, ver := 1, ts := 1, ins := [1], outs := [(2, false)], kers := [.plain 1], tags := [] }
     = .ok { utxo := [(2, 1, false)], nrd := [], height := 1 } := by
   simp [applyBlock, stateChecks, immature, dupOutput, nrdBad, hasTag, effects, UState.has, UState.find]
+
+
+/-! ## the incremental txhashset -/
+
+open TxHS in
+/-- **`rewind_single_block` undoes `apply_block`.** Under the representation invariant (index and
+leaf set describe the same unspent leaves), for a block that does not spend its own outputs:
+rewinding the block just applied — to the previous header's output size — gives back the same
+leaves, the same set of unspent positions, the same `output_pos` lookups and therefore the same
+answer of `get_unspent` for every commitment. The re-save of `output_pos` for un-spent positions
+is what restores the entries of the block's inputs (re-created commitments included). -/
+theorem rewind_apply_inverse (S S' : TxHS) (b : Blk) (hi : RInv S)
+    (hct : cutThroughViolation b = false) (hr : applyBlockImpl S b = .ok S') :
+    (rewindSingleBlock S' b S.leaves.length).Equiv S ∧
+    ∀ c, (rewindSingleBlock S' b S.leaves.length).getUnspent c = S.getUnspent c := by
+  obtain ⟨sp, A⟩ := applyBlockImpl_ok hi hct hr
+  have he := rewind_apply_equiv hi A
+  exact ⟨he, he.getUnspent⟩
+
+open TxHS in
+/-- **The incremental txhashset refines the replay** (`utxo_eq_replay` for the implementation-shaped
+model). For every path `g :: bs` that `replay` accepts (bodies duplicate-free and without
+cut-through, as `Block::validate` enforces): folding `applyBlockImpl` from the empty txhashset
+succeeds, keeps the representation invariant, and the commitments `get_unspent` reports are
+exactly the unspent set of the replayed state — spent outputs never reappear, unspent ones never
+vanish, a re-created commitment is unspent again at its new position. -/
+theorem impl_refines_replay (p : Params) (g : Blk) (bs : List Blk) (s : UState)
+    (hgi : g.ins = []) (hgo : (g.outs.map (·.1)).Nodup)
+    (hb : ∀ b ∈ bs, b.Sane ∧ cutThroughViolation b = false)
+    (hr : replay p (genesisState g) bs = .ok s) :
+    ∃ S, applyBlocks {} (g :: bs) = .ok S ∧ RInv S ∧
+      (∀ c, (S.getUnspent c).isSome = s.has c) ∧ (∀ c, c ∈ S.reported ↔ c ∈ s.utxo.map (·.1)) := by
+  obtain ⟨S0, h0, hi0, ha0⟩ := impl_genesis g hgi hgo
+  obtain ⟨S, hS, hi, ha⟩ := impl_replay p bs hi0 ha0 hb hr
+  refine ⟨S, by simp only [applyBlocks, h0, hS], hi, ?_, ?_⟩
+  · intro c; rw [hi.getUnspent_eq]; exact ha c
+  · intro c; rw [reported_iff hi, ha c, has_iff_mem]
+
+open TxHS in
+/-- **Fork switch.** `P` = txhashset at the fork point (invariant holds), `d` = the branch being
+left, `u` = the branch being joined, both applicable from `P`. From the tip of `d`, rewinding
+block by block (tip first, each to its previous header's output size) and then applying `u` gives
+a txhashset observably equal to the one of `u`'s own path — `get_unspent` answers alike for every
+commitment. So validation "against the fork being extended" really sees that fork's state. -/
+theorem fork_switch (P S T : TxHS) (d u : List Blk) (hi : RInv P)
+    (hctd : ∀ b ∈ d, cutThroughViolation b = false) (hctu : ∀ b ∈ u, cutThroughViolation b = false)
+    (hnd : (d.map (·.id)).Nodup)
+    (hd : applyBlocks P d = .ok S) (hu : applyBlocks P u = .ok T) :
+    ∃ T', rewindAndApplyFork S (withPrevSizes P.leaves.length d).reverse u = .ok T' ∧
+      T'.Equiv T ∧ ∀ c, T'.getUnspent c = T.getUnspent c := by
+  obtain ⟨T', h, he⟩ := fork_switch_equiv d u hi hctd hctu hnd hd hu (Equiv.refl S) (fun _ _ => rfl)
+  exact ⟨T', h, he, he.getUnspent⟩
+
+open TxHS in
+/-- … in terms of the replay: after a fork switch from any branch to the path `g :: pre ++ u`, the
+txhashset reports exactly the unspent set of `replay` along `g :: pre ++ u`. -/
+theorem fork_switch_refines_replay (p : Params) (g : Blk) (pre d u : List Blk) (s : UState) (S : TxHS)
+    (hgi : g.ins = []) (hgo : (g.outs.map (·.1)).Nodup)
+    (hbp : ∀ b ∈ pre, b.Sane ∧ cutThroughViolation b = false)
+    (hbu : ∀ b ∈ u, b.Sane ∧ cutThroughViolation b = false)
+    (hctd : ∀ b ∈ d, cutThroughViolation b = false) (hnd : (d.map (·.id)).Nodup)
+    (hd : applyBlocks {} (g :: pre ++ d) = .ok S)
+    (hr : replay p (genesisState g) (pre ++ u) = .ok s) :
+    ∃ P T', applyBlocks {} (g :: pre) = .ok P ∧
+      rewindAndApplyFork S (withPrevSizes P.leaves.length d).reverse u = .ok T' ∧
+      ∀ c, (T'.getUnspent c).isSome = s.has c := by
+  have hb : ∀ b ∈ pre ++ u, b.Sane ∧ cutThroughViolation b = false := by
+    intro b hb
+    rcases List.mem_append.mp hb with h | h
+    · exact hbp b h
+    · exact hbu b h
+  obtain ⟨T, hT, hiT, haT, _⟩ := impl_refines_replay p g (pre ++ u) s hgi hgo hb hr
+  rw [show g :: (pre ++ u) = (g :: pre) ++ u from rfl, applyBlocks_append] at hT
+  rw [show g :: pre ++ d = (g :: pre) ++ d from rfl, applyBlocks_append] at hd
+  cases hP : applyBlocks {} (g :: pre) with
+  | error e => rw [hP] at hT; cases hT
+  | ok P =>
+    rw [hP] at hT hd
+    simp only at hT hd
+    have hctg : cutThroughViolation g = false := by
+      apply (cutThrough_false_iff g).mpr; intro c hc; rw [hgi] at hc; cases hc
+    have hiP : RInv P := (applyBlocks_ok (g :: pre) RInv.empty (by
+      intro b hb
+      rcases List.mem_cons.mp hb with h | h
+      · exact h ▸ hctg
+      · exact (hbp b h).2) hP).1
+    obtain ⟨T', h, _, hu'⟩ := fork_switch P S T d u hiP hctd (fun b hb => (hbu b hb).2) hnd hd hT
+    exact ⟨P, T', rfl, h, fun c => by rw [hu' c]; exact haT c⟩
+
+open TxHS in
+/-- **After every applied block the last output leaf is unspent** (the hypothesis of the C15
+bitmap-accumulator theorem): a block cannot spend its own outputs (`cutThroughViolation`) and has
+at least one output. -/
+theorem last_leaf_unspent (S S' : TxHS) (b : Blk) (hi : RInv S)
+    (hct : cutThroughViolation b = false) (hne : b.outs ≠ [])
+    (hr : applyBlockImpl S b = .ok S') : S'.leaves.length - 1 ∈ S'.leafSet := by
+  obtain ⟨sp, A⟩ := applyBlockImpl_ok hi hct hr
+  exact last_leaf_unspent_of A hne
+
+/-- … and a block whose body passes validation has an output whenever the subsidy is positive. -/
+theorem valid_body_has_output (p : Params) (outs : List OutDef) (b : Blk) (iv : Nat)
+    (h : validateBody p outs b iv = none) (hpos : 0 < p.reward) : b.outs ≠ [] :=
+  outs_ne_nil_of_coinbase p outs b (validateBody_none p outs b iv h).2.2.2.1 (by omega)
 
 end GV.Props.C02
